@@ -22,6 +22,7 @@ struct ScriptCfg {
     bool ragged = false;
     bool nameVariants = false;    // parameter / group names that are case variants of other names, names and descriptions beyond what a file holds
     bool subCountDeviations = false; // frames with one sub-frame fewer / more (accepted; the header must follow when the data stay uniform)
+    bool framesParamMid = false;  // POINT:FRAMES edited by hand in the middle of a history (C13: header and data then disagree on the frame count)
     bool resample = false;        // ANALOG:RATE changed and every frame replaced by one with the new sub-frame count
     bool workingCopies = false;   // copies of stored frames taken by the caller, one Frame object refilled with add()
     bool framesParam = false;     // POINT:FRAMES edited by hand at the end
@@ -41,7 +42,7 @@ static rc::Gen<long long> dimEntry() {
                                         {1, g::elementOf(std::vector<long long>{255, 128, 127})}});
 }
 static rc::Gen<Op> gParam(bool bad, bool variants = false, bool keepRefused = false) {
-    auto grp = variants ? g::weightedOneOf<long long>({{2, g::just<long long>(0)}, {2, g::just<long long>(1)}, {1, g::just<long long>(2)}, {6, sized(3, 9)}, {1, g::map(sized(0, 9), [](long long v) { return v + 700000; })}})
+    auto grp = variants ? g::weightedOneOf<long long>({{2, g::just<long long>(0)}, {2, g::just<long long>(1)}, {1, g::just<long long>(2)}, {6, sized(3, 9)}, {1, g::map(sized(0, 9), [](long long v) { return v + 700000; })}, {1, g::map(sized(0, 9), [](long long v) { return v + 600000; })}, {1, g::map(sized(0, 9), [](long long v) { return v + 900000; })}})
                         : g::weightedOneOf<long long>({{2, g::just<long long>(0)}, {2, g::just<long long>(1)}, {1, g::just<long long>(2)}, {6, sized(3, 9)}});
     auto name = variants ? g::weightedOneOf<long long>({{12, sized(0, 14)}, {1, g::just<long long>(-1)}, {3, g::map(sized(0, 14), [](long long v) { return v + 700000; })}, {1, g::map(sized(0, 14), [](long long v) { return v + 800000; })}})
               : bad ? g::weightedOneOf<long long>({{12, sized(0, 14)}, {1, g::just<long long>(-1)}}) : sized(0, 14);
@@ -132,6 +133,7 @@ static rc::Gen<Op> gEditOp(const ScriptCfg &c) {
         w.push_back({1, op("slotcopy", {uni(0, 3), sized(0, 20)})});             // a working copy of a stored frame
     }
     if (c.resample) w.push_back({2, op("resample", {uni(0, 5), seedv()})});
+    if (c.framesParamMid) w.push_back({1, op("pframes", {g::elementOf(std::vector<long long>{-3, -1, -1, 1, 2})})});
     if (c.reload) w.push_back({2, op("reload", {})});
     if (c.print) w.push_back({1, op("print", {})});
     if (c.selfParam && c.callerReuse) w.push_back({2, op("selfelem", {uni(0, 3), uni(0, 2), sized(0, 12), g::weightedOneOf<long long>({{3, uni(0, 3)}, {2, uni(4, 39)}})})});
@@ -159,8 +161,12 @@ rc::Gen<std::vector<Op>> genScriptOps(const ScriptCfg &c) {
             {2, concat({one(op("slotcopy", {g::just(s), g::just(k)})), one(op("refill", {g::just(s), g::just<long long>(0), seedv()})), one(op("fsub", {g::just(s), uni(0, 2), sized(0, 20)}))})},
             {1, concat({one(op("slotcopy", {g::just(s), g::just(k)})), one(op("fmut", {g::just(s), g::just<long long>(3), seedv()})), one(op("fsub", {g::just(s), uni(0, 1), sized(0, 20)}))})}});
     });
-    auto mixed = c.workingCopies ? g::weightedOneOf<std::vector<Op>>({{6, one(gEditOp(c))}, {4, gFrameAdd(c)}, {2, one(gSetupOp(c, c.lateRates))}, {1, copyBack}})
-                               : g::weightedOneOf<std::vector<Op>>({{3, one(gEditOp(c))}, {2, gFrameAdd(c)}, {1, one(gSetupOp(c, c.lateRates))}});
+    // POINT:FRAMES lowered by hand, then a point / channel column with as many frames as the HEADER now announces
+    auto staleCount = concat({one(op("pframes", {g::elementOf(std::vector<long long>{-1, -1, -2})})), one(g::oneOf(op("pcol", {sized(0, 30), uni(0, 2), g::just<long long>(2), seedv()}), op("acol", {sized(0, 30), uni(0, 2), g::just<long long>(2), seedv()})))});
+    std::vector<std::pair<size_t, rc::Gen<std::vector<Op>>>> mix = {{6, one(gEditOp(c))}, {4, gFrameAdd(c)}, {2, one(gSetupOp(c, c.lateRates))}};
+    if (c.workingCopies) mix.push_back({1, copyBack});
+    if (c.framesParamMid) mix.push_back({1, staleCount});
+    auto mixed = weighted<std::vector<Op>>(mix);
     const double k = (c.maxEdits < 1 ? 1 : c.maxEdits) / 100.0;
     auto editsL = g::scale(k, g::container<std::vector<std::vector<Op>>>(g::scale(1.0 / k, mixed)));
     auto edits = g::map(editsL, [](std::vector<std::vector<Op>> v) { std::vector<Op> o; for (auto &x : v) o.insert(o.end(), x.begin(), x.end()); return o; });
@@ -191,12 +197,12 @@ static ScriptCfg cfgFor(const std::string &id, int tier) {
     if (id == "C01") { c.extend = true; c.resample = true; }
     else if (id == "C03") { c.reload = true; c.subCountDeviations = true; c.resample = true; }     // accepted frames with another sub-frame count are saved too
     else if (id == "C05") { c.resample = true; c.deviations = true; c.reload = true; c.lateRates = true; c.fillAtEnd = false; c.badParams = true; }
-    else if (id == "C06") { c.workingCopies = true; c.fillAtEnd = false; c.callerReuse = false; c.deviations = true; }   // accepted deviating frames (e.g. points only) must be stored exactly as given too
+    else if (id == "C06") { c.lateRates = true; c.workingCopies = true; c.fillAtEnd = false; c.callerReuse = false; c.deviations = true; }   // accepted deviating frames (e.g. points only) must be stored exactly as given too
     else if (id == "C07") { c.deviations = true; c.fillAtEnd = false; }
     else if (id == "C08") { c.workingCopies = true; c.callerReuse = true; c.fillAtEnd = false; }
     else if (id == "C09") { c.badParams = true; c.nameVariants = true; c.selfParam = true; c.fillAtEnd = false; c.maxFrames = 2; }
     else if (id == "C10") { c.deviations = true; c.badParams = true; c.nameVariants = true; c.ragged = true; c.reload = true; c.fillAtEnd = false; }
-    else if (id == "C13") { c.resample = true; c.workingCopies = true; c.selfParam = true; c.keepRefused = true; c.deviations = true; c.badParams = true; c.callerReuse = true; c.reload = true; c.print = true; c.ragged = false; }
+    else if (id == "C13") { c.framesParamMid = true; c.resample = true; c.workingCopies = true; c.selfParam = true; c.keepRefused = true; c.deviations = true; c.badParams = true; c.callerReuse = true; c.reload = true; c.print = true; c.ragged = false; }
     else if (id == "C14") { c.print = false; c.raggedSub = true; c.resample = true; }
     else if (id == "C15") { c.framesParam = true; }
     return c;
